@@ -165,6 +165,20 @@ func vDamagedData(otherLoaders bool) {
 			}
 		}
 	}
+	it3, rerr3 := r.ScanRange(keys[0], keys[n-1])
+	if rerr3 == nil {
+		for i := 0; i <= n; i++ {
+			k, v, e := it3.Next()
+			if e != nil {
+				break
+			}
+			for j := range keys {
+				if vrt.EqBytes(k, keys[j]) {
+					vrt.Assert(len(vals[j]) == 0 || vrt.EqBytes(v, vals[j]), "damage/range-scan-never-returns-different-value")
+				}
+			}
+		}
+	}
 	r.Close()
 	vrt.Reach("damage/end")
 }
